@@ -57,12 +57,14 @@ def cond_spec(draw, allow_malformed=True):
     hdr = draw(st.sampled_from(["If-Match", "If-None-Match"]))
     kinds = ["current", "current", "stale", "stale", "other", "star", "never"]
     if allow_malformed:
-        kinds += ["weak-current", "unquoted-current", "halfquoted-current"]
+        kinds += ["weak-current", "unquoted-current", "halfquoted-current", "empty"]
     n = draw(st.sampled_from([1, 1, 1, 2, 3]))
     items = []
     for _ in range(n):
         k = draw(st.sampled_from(kinds))
         it = {"kind": k}
+        if k == "empty":
+            it = {"kind": "literal", "v": draw(st.sampled_from(["", " "]))}
         if k in ("stale", "other"):
             it["k"] = draw(st.integers(0, 3))
         if k == "never":
@@ -194,9 +196,9 @@ def program(draw, weights=None, min_steps=8, max_steps=30, prefixes=PREFIXES, se
         elif op == "POST":
             fam = draw(st.sampled_from(["cal", "card"]))
             if fam == "cal":
-                steps.append({"op": "POST", "fe": fe, "afe": afe, "coll": draw(st.sampled_from(CAL)), "ctype": "text/calendar", "body": enc_body(draw(st.sampled_from(cal_bodies + [{"raw": bad_cal[0][1]}]))["raw"])})
+                steps.append({"op": "POST", "fe": fe, "afe": afe, "coll": draw(st.sampled_from(CAL)), "ctype": "text/calendar", "body": enc_body(draw(st.sampled_from(cal_bodies + [{"raw": bad_cal[0][1]}]))["raw"]), "slash": draw(st.integers(0, 2)) > 0})
             else:
-                steps.append({"op": "POST", "fe": fe, "afe": afe, "coll": draw(st.sampled_from(AB)), "ctype": "text/vcard", "body": enc_body(draw(st.sampled_from(card_bodies))["raw"])})
+                steps.append({"op": "POST", "fe": fe, "afe": afe, "coll": draw(st.sampled_from(AB)), "ctype": "text/vcard", "body": enc_body(draw(st.sampled_from(card_bodies))["raw"]), "slash": draw(st.integers(0, 2)) > 0})
         elif op == "DELETE":
             fam = draw(st.sampled_from(["cal", "cal", "card", "other"]))
             if fam == "cal":
